@@ -9,29 +9,58 @@
      [op:"range", ch]           for v := range ch { acc += v }
      [op:"rangep", ch]          for v := range ch { println(v) }
      [op:"rangefwd", ch, ch2, add]   for v := range ch { ch2 <- v + add }
+     [op:"recvok", ch, nok]     v, ok := <-ch; acc += v; if !ok { acc += nok }
+     [op:"loopok", ch, nok]     for { v, ok := <-ch; if !ok { acc += nok; break }; acc += v }
      [op:"selrecv", chs]        select { case v := <-chs[1]: acc += v; case v := <-chs[2]: acc += v ... }
      [op:"selsend", chs, schs, vs]   select { case v := <-chs[k]: acc += v ...; case schs[k] <- vs[k]: ... }
                                 (all the values vs[k] are evaluated before the select; exactly one case proceeds)
+     [op:"selnb", n, chs, schs, vs, hit, dflt]
+                                for i := 0; i < n; i++ {      (n = 1: the select alone, without a loop)
+                                  select { case v := <-chs[k]: acc += v ...; case schs[k] <- vs[k]: acc += hit ...;
+                                           default: acc += dflt } }
      [op:"print"]               println(acc)                 [op:"printc", v]       println(v)
+     [op:"lenp", ch]            println(len(ch))             [op:"capp", ch]        println(cap(ch))
+     [op:"lenacc", ch]          acc += len(ch)               [op:"add", v]          acc += v
+     [op:"defer", ds]           defer func() { ds }()   (ds: instructions; <<[op:"close", ch]>> is written defer close(ch))
+     [op:"recover"]             recover()                    [op:"panic"]           panic("boom")
    Channel semantics: unbuffered rendezvous, buffered FIFO, close, receive from a closed channel
-   yields the zero value, send on / close of a closed channel panics, a nil channel is not modelled.
-   The program ends when main's body ends (as in Go).  TLC explores EVERY schedule and decides
+   yields the zero value and ok = false, send on / close of a closed channel panics.  A channel of
+   capacity -1 is a NIL channel: send and receive block forever (in a select the case is never
+   ready), close panics, len = cap = 0.
+   select with default: the cases that can proceed at once are those on a buffered channel with
+   data / room, on a closed channel, or on an unbuffered channel where a partner is already PARKED.
+   Whether a partner that has reached its blocking instruction has parked yet is a matter of
+   scheduling, so such a case may or may not count as ready: both are explored (and the default may
+   be taken whenever no case is ready for sure).  A thread in a select with default never parks.
+   Panics: a panic (the statement, or a run-time panic of a channel operation) ends the thread's
+   body and runs its deferred functions, last first; recover() called by a deferred function stops
+   the panic and the thread then ends normally; a thread that ends still panicking crashes the
+   program.  A panic inside a deferred function is taken as a crash (over-approximation: such
+   programs are simply left out).  Deferred functions contain no defer statements.
+   The program ends when main ends (as in Go).  TLC explores EVERY schedule and decides
    what the property presupposes: no deadlock, no panicking goroutine, and the same printed output
    in all terminal states; programs failing one of these are outside the property's domain. *)
 EXTENDS Integers, Sequences, FiniteSets, TLC, ConcGoProgs
 VARIABLES p,        \* index of the program in Progs
           pc, acc, started, hold,     \* per thread; hold: value a rangefwd body still has to send (-1: none)
+          cnt,      \* per thread: iterations done of the current polling loop (selnb)
+          panicking, dstack,          \* per thread: a panic is in flight; deferred instructions, next to run first
           chans,    \* per channel [cap, buf, closed]
           out,      \* printed values
           status    \* "run" | "done" | "panic"
-vars == <<p, pc, acc, started, hold, chans, out, status>>
+vars == <<p, pc, acc, started, hold, cnt, panicking, dstack, chans, out, status>>
 P == Progs[p]
 Threads == DOMAIN P.threads
 Body(t) == P.threads[t]
-AtEnd(t) == pc[t] > Len(Body(t))
-I(t) == Body(t)[pc[t]]
+InBody(t) == pc[t] <= Len(Body(t))
+\* after its body a thread runs its deferred instructions (pc keeps counting through them)
+AtEnd(t) == pc[t] > Len(Body(t)) + Len(dstack[t])
+I(t) == IF InBody(t) THEN Body(t)[pc[t]] ELSE dstack[t][pc[t] - Len(Body(t))]
 Active(t) == started[t] /\ ~AtEnd(t) /\ status = "run"
-RecvOps == {"recv", "recvp", "range", "rangep", "rangefwd", "selrecv", "selsend"}
+RecvOps == {"recv", "recvp", "recvok", "range", "rangep", "rangefwd", "loopok", "selrecv", "selsend"}
+LoopOps == {"range", "rangep", "rangefwd", "loopok"}
+AccOps == {"recv", "recvok", "range", "loopok", "selrecv", "selsend"}
+LocalOps == {"print", "printc", "lenp", "capp", "lenacc", "add", "defer", "recover", "panic"}
 \* thread t is ready to receive on channel c (its current instruction is a receive on c and it holds nothing)
 WantsRecv(t, c) == /\ Active(t) /\ hold[t] = -1 /\ I(t).op \in RecvOps
                    /\ IF I(t).op \in {"selrecv", "selsend"} THEN \E k \in DOMAIN I(t).chs : I(t).chs[k] = c ELSE I(t).ch = c
@@ -40,13 +69,26 @@ Init == /\ p \in DOMAIN Progs
         /\ pc = [t \in DOMAIN Progs[p].threads |-> 1]
         /\ acc = [t \in DOMAIN Progs[p].threads |-> 0]
         /\ hold = [t \in DOMAIN Progs[p].threads |-> -1]
+        /\ cnt = [t \in DOMAIN Progs[p].threads |-> 0]
+        /\ panicking = [t \in DOMAIN Progs[p].threads |-> FALSE]
+        /\ dstack = [t \in DOMAIN Progs[p].threads |-> <<>>]
         /\ started = [t \in DOMAIN Progs[p].threads |-> t = 1]
         /\ chans = [c \in DOMAIN Progs[p].chans |-> [cap |-> Progs[p].chans[c], buf |-> <<>>, closed |-> FALSE]]
         /\ out = <<>> /\ status = "run"
 
+\* thread t panics: the rest of its body is skipped and its deferred functions run
+Raise(t) == /\ IF InBody(t)
+               THEN /\ pc' = [pc EXCEPT ![t] = Len(Body(t)) + 1]
+                    /\ panicking' = [panicking EXCEPT ![t] = TRUE]
+                    /\ UNCHANGED status
+               ELSE status' = "panic" /\ UNCHANGED <<pc, panicking>>
+            /\ hold' = [hold EXCEPT ![t] = -1] /\ cnt' = [cnt EXCEPT ![t] = 0]
+            /\ UNCHANGED <<p, acc, started, dstack, chans, out>>
+
 \* effect on receiver r of receiving value v (ok = FALSE: the channel is closed and empty)
-RecvPC(r, ok)  == IF I(r).op \in {"range", "rangep", "rangefwd"} THEN (IF ok THEN pc[r] ELSE pc[r] + 1) ELSE pc[r] + 1
-RecvAcc(r, v, ok) == IF I(r).op \in {"recv", "range", "selrecv", "selsend"} /\ ok THEN acc[r] + v ELSE acc[r]
+RecvPC(r, ok)  == IF I(r).op \in LoopOps THEN (IF ok THEN pc[r] ELSE pc[r] + 1) ELSE pc[r] + 1
+RecvAcc(r, v, ok) == IF ok THEN (IF I(r).op \in AccOps THEN acc[r] + v ELSE acc[r])
+                     ELSE IF I(r).op \in {"recvok", "loopok"} THEN acc[r] + I(r).nok ELSE acc[r]
 RecvOut(r, v, ok) == IF (I(r).op = "recvp") \/ (I(r).op = "rangep" /\ ok) THEN Append(out, v) ELSE out
 RecvHold(r, v, ok) == IF I(r).op = "rangefwd" /\ ok THEN v + I(r).add ELSE -1
 DoRecv(r, v, ok) == /\ pc' = [pc EXCEPT ![r] = RecvPC(r, ok)]
@@ -55,7 +97,7 @@ DoRecv(r, v, ok) == /\ pc' = [pc EXCEPT ![r] = RecvPC(r, ok)]
                     /\ hold' = [hold EXCEPT ![r] = RecvHold(r, v, ok)]
 
 \* what thread t currently offers to send, and where (a set of <<channel, value>>): a send instruction, the
-\* body of rangefwd, or the send cases of a select - of which exactly one proceeds
+\* body of rangefwd, or the send cases of a (blocking) select - of which exactly one proceeds
 SendReqs(t) == IF ~Active(t) THEN {}
                ELSE IF hold[t] # -1 THEN {<<I(t).ch2, hold[t]>>}
                ELSE IF I(t).op = "send" THEN {<<I(t).ch, I(t).v>>}
@@ -68,7 +110,7 @@ SendBuffered(t) == \E q \in SendReqs(t) : LET c == q[1] IN
   /\ chans[c].cap > 0 /\ ~chans[c].closed /\ Len(chans[c].buf) < chans[c].cap
   /\ chans' = [chans EXCEPT ![c].buf = Append(@, q[2])]
   /\ pc' = [pc EXCEPT ![t] = AfterSendPC(t)] /\ hold' = [hold EXCEPT ![t] = -1]
-  /\ UNCHANGED <<p, acc, started, out, status>>
+  /\ UNCHANGED <<p, acc, started, cnt, panicking, dstack, out, status>>
 \* unbuffered: sender and receiver meet in one step
 Rendezvous(t, r) == \E q \in SendReqs(t) : LET c == q[1] IN
   /\ r # t /\ chans[c].cap = 0 /\ ~chans[c].closed /\ WantsRecv(r, c)
@@ -76,29 +118,85 @@ Rendezvous(t, r) == \E q \in SendReqs(t) : LET c == q[1] IN
   /\ acc' = [acc EXCEPT ![r] = RecvAcc(r, q[2], TRUE)]
   /\ out' = RecvOut(r, q[2], TRUE)
   /\ hold' = [hold EXCEPT ![t] = -1, ![r] = RecvHold(r, q[2], TRUE)]
-  /\ UNCHANGED <<p, started, chans, status>>
-SendOnClosed(t) == \E q \in SendReqs(t) :
-  /\ chans[q[1]].closed /\ status' = "panic" /\ UNCHANGED <<p, pc, acc, started, hold, chans, out>>
+  /\ UNCHANGED <<p, started, cnt, panicking, dstack, chans, status>>
+SendOnClosed(t) == \E q \in SendReqs(t) : chans[q[1]].closed /\ Raise(t)
 RecvBuffered(r, c) ==
   /\ WantsRecv(r, c) /\ chans[c].buf # <<>>
   /\ chans' = [chans EXCEPT ![c].buf = Tail(@)]
-  /\ DoRecv(r, Head(chans[c].buf), TRUE) /\ UNCHANGED <<p, started, status>>
+  /\ DoRecv(r, Head(chans[c].buf), TRUE) /\ UNCHANGED <<p, started, cnt, panicking, dstack, status>>
 RecvClosed(r, c) ==
   /\ WantsRecv(r, c) /\ chans[c].closed /\ chans[c].buf = <<>>
-  /\ DoRecv(r, 0, FALSE) /\ UNCHANGED <<p, started, chans, status>>
+  /\ DoRecv(r, 0, FALSE) /\ UNCHANGED <<p, started, cnt, panicking, dstack, chans, status>>
 Close(t) == /\ Active(t) /\ hold[t] = -1 /\ I(t).op = "close"
-            /\ IF chans[I(t).ch].closed THEN status' = "panic" /\ UNCHANGED <<pc, chans>>
-               ELSE chans' = [chans EXCEPT ![I(t).ch].closed = TRUE] /\ pc' = [pc EXCEPT ![t] = @ + 1] /\ UNCHANGED status
-            /\ UNCHANGED <<p, acc, started, hold, out>>
+            /\ IF chans[I(t).ch].closed \/ chans[I(t).ch].cap < 0 THEN Raise(t)
+               ELSE /\ chans' = [chans EXCEPT ![I(t).ch].closed = TRUE] /\ pc' = [pc EXCEPT ![t] = @ + 1]
+                    /\ UNCHANGED <<p, acc, started, hold, cnt, panicking, dstack, out, status>>
 Go(t) == /\ Active(t) /\ hold[t] = -1 /\ I(t).op = "go"
          /\ started' = [started EXCEPT ![I(t).t] = TRUE] /\ pc' = [pc EXCEPT ![t] = @ + 1]
-         /\ UNCHANGED <<p, acc, hold, chans, out, status>>
-DoPrint(t) == /\ Active(t) /\ hold[t] = -1 /\ I(t).op \in {"print", "printc"}
-            /\ out' = Append(out, IF I(t).op = "print" THEN acc[t] ELSE I(t).v)
-            /\ pc' = [pc EXCEPT ![t] = @ + 1] /\ UNCHANGED <<p, acc, started, hold, chans, status>>
-MainEnds == /\ status = "run" /\ AtEnd(1) /\ status' = "done"
-            /\ UNCHANGED <<p, pc, acc, started, hold, chans, out>>
-Step == \/ \E t \in Threads : SendBuffered(t) \/ SendOnClosed(t) \/ Close(t) \/ Go(t) \/ DoPrint(t)
+         /\ UNCHANGED <<p, acc, hold, cnt, panicking, dstack, chans, out, status>>
+ChanCap(c) == IF chans[c].cap < 0 THEN 0 ELSE chans[c].cap
+\* instructions that involve no other thread
+Local(t) == /\ Active(t) /\ hold[t] = -1 /\ I(t).op \in LocalOps
+            /\ LET i == I(t) IN
+               IF i.op = "panic" THEN Raise(t)
+               ELSE /\ pc' = [pc EXCEPT ![t] = @ + 1]
+                    /\ out' = CASE i.op = "print" -> Append(out, acc[t])
+                                [] i.op = "printc" -> Append(out, i.v)
+                                [] i.op = "lenp" -> Append(out, Len(chans[i.ch].buf))
+                                [] i.op = "capp" -> Append(out, ChanCap(i.ch))
+                                [] OTHER -> out
+                    /\ acc' = CASE i.op = "add" -> [acc EXCEPT ![t] = @ + i.v]
+                                [] i.op = "lenacc" -> [acc EXCEPT ![t] = @ + Len(chans[i.ch].buf)]
+                                [] OTHER -> acc
+                    \* recover() stops a panic only when called by a deferred function
+                    /\ panicking' = IF i.op = "recover" /\ ~InBody(t) THEN [panicking EXCEPT ![t] = FALSE] ELSE panicking
+                    /\ dstack' = IF i.op = "defer" /\ InBody(t) THEN [dstack EXCEPT ![t] = i.ds \o @] ELSE dstack
+                    /\ UNCHANGED <<p, started, hold, cnt, chans, status>>
+\* select with a default clause, possibly in a loop of n iterations
+SelNB(t) ==
+  /\ Active(t) /\ hold[t] = -1 /\ I(t).op = "selnb"
+  /\ LET i == I(t)
+         npc == IF cnt[t] + 1 < i.n THEN pc[t] ELSE pc[t] + 1
+         ncnt == IF cnt[t] + 1 < i.n THEN cnt[t] + 1 ELSE 0
+         \* cases that can proceed for sure
+         DefRecv == {k \in DOMAIN i.chs : chans[i.chs[k]].buf # <<>> \/ chans[i.chs[k]].closed}
+         DefSend == {k \in DOMAIN i.schs : chans[i.schs[k]].closed \/ Len(chans[i.schs[k]].buf) < chans[i.schs[k]].cap}
+     IN \/ \E k \in DefRecv : LET c == i.chs[k] IN
+             /\ IF chans[c].buf # <<>>
+                THEN chans' = [chans EXCEPT ![c].buf = Tail(@)] /\ acc' = [acc EXCEPT ![t] = @ + Head(chans[c].buf)]
+                ELSE UNCHANGED <<chans, acc>>
+             /\ pc' = [pc EXCEPT ![t] = npc] /\ cnt' = [cnt EXCEPT ![t] = ncnt]
+             /\ UNCHANGED <<p, started, hold, panicking, dstack, out, status>>
+        \/ \E k \in DefSend : LET c == i.schs[k] IN
+             IF chans[c].closed THEN Raise(t)
+             ELSE /\ chans' = [chans EXCEPT ![c].buf = Append(@, i.vs[k])] /\ acc' = [acc EXCEPT ![t] = @ + i.hit]
+                  /\ pc' = [pc EXCEPT ![t] = npc] /\ cnt' = [cnt EXCEPT ![t] = ncnt]
+                  /\ UNCHANGED <<p, started, hold, panicking, dstack, out, status>>
+        \* a sender that reached its (blocking) send on an unbuffered channel: parked or not yet
+        \/ \E k \in DOMAIN i.chs, s \in Threads \ {t} : \E q \in SendReqs(s) :
+             /\ q[1] = i.chs[k] /\ chans[q[1]].cap = 0 /\ ~chans[q[1]].closed
+             /\ pc' = [pc EXCEPT ![t] = npc, ![s] = AfterSendPC(s)] /\ cnt' = [cnt EXCEPT ![t] = ncnt]
+             /\ acc' = [acc EXCEPT ![t] = @ + q[2]]
+             /\ hold' = [hold EXCEPT ![s] = -1]
+             /\ UNCHANGED <<p, started, panicking, dstack, chans, out, status>>
+        \* a receiver that reached its (blocking) receive on an unbuffered channel: parked or not yet
+        \/ \E k \in DOMAIN i.schs, r \in Threads \ {t} : LET c == i.schs[k] IN
+             /\ chans[c].cap = 0 /\ ~chans[c].closed /\ WantsRecv(r, c)
+             /\ pc' = [pc EXCEPT ![t] = npc, ![r] = RecvPC(r, TRUE)] /\ cnt' = [cnt EXCEPT ![t] = ncnt]
+             /\ acc' = [acc EXCEPT ![t] = @ + i.hit, ![r] = RecvAcc(r, i.vs[k], TRUE)]
+             /\ out' = RecvOut(r, i.vs[k], TRUE)
+             /\ hold' = [hold EXCEPT ![r] = RecvHold(r, i.vs[k], TRUE)]
+             /\ UNCHANGED <<p, started, panicking, dstack, chans, status>>
+        \/ /\ DefRecv = {} /\ DefSend = {}
+           /\ acc' = [acc EXCEPT ![t] = @ + i.dflt]
+           /\ pc' = [pc EXCEPT ![t] = npc] /\ cnt' = [cnt EXCEPT ![t] = ncnt]
+           /\ UNCHANGED <<p, started, hold, panicking, dstack, chans, out, status>>
+MainEnds == /\ status = "run" /\ AtEnd(1) /\ ~panicking[1] /\ status' = "done"
+            /\ UNCHANGED <<p, pc, acc, started, hold, cnt, panicking, dstack, chans, out>>
+\* a goroutine (or main) whose panic nobody recovered
+Crash(t) == /\ status = "run" /\ started[t] /\ AtEnd(t) /\ panicking[t] /\ status' = "panic"
+            /\ UNCHANGED <<p, pc, acc, started, hold, cnt, panicking, dstack, chans, out>>
+Step == \/ \E t \in Threads : SendBuffered(t) \/ SendOnClosed(t) \/ Close(t) \/ Go(t) \/ Local(t) \/ SelNB(t) \/ Crash(t)
         \/ \E t, r \in Threads : Rendezvous(t, r)
         \/ \E r \in Threads, c \in DOMAIN chans : RecvBuffered(r, c) \/ RecvClosed(r, c)
         \/ MainEnds
